@@ -78,6 +78,58 @@ def h16_handle(S, script_len=3, dependency=False):
             used = True
 
 
+def h16_redis_chain(S):
+    """Message handles over Redis across deliveries: the counter a retry wrote is what the next delivery's handle sees."""
+    from fakes import redis as fr
+    from repid import Connection
+    import repid.data._parameters as P
+    from repid.data._key import RoutingKey
+    from repid.message import Message, MessageCategory
+    from harness.common import SEC
+
+    N = S.pick("max_amount", 3)
+    forced = S.flag("first_answer_is_force_retry")
+    clock = PinnedClock(T0)
+    log = []
+
+    async def main(loop):
+        srv = fr.FakeServer(clock=lambda: clock.time())
+        br = fr.mk_broker(srv)
+        conn = Connection(br)
+        key = RoutingKey(topic="job", queue="default", id_="m1")
+        await br.enqueue(key, "pl", P.Parameters(retries=P.RetriesProperties(max_amount=N, already_tried=0), timestamp=P.datetime.now()))
+        cons = br.get_consumer("default", ["job"])
+        cons.POLLING_WAIT = 0
+        for delivery in range(N + 3):
+            got = await cons.consume_or_none()
+            if got is None:
+                log.append(("nothing-delivered", delivery))
+                break
+            m = Message(key=got[0], raw_payload=got[1], parameters=got[2], _connection=conn, _category=MessageCategory.NORMAL)
+            seen = got[2].retries.already_tried
+            try:
+                if forced and delivery == 0:
+                    await m.force_retry(real_timedelta(0))
+                    log.append(("force_retry-accepted", seen))
+                else:
+                    await m.retry(real_timedelta(0))
+                    log.append(("retry-accepted", seen))
+            except ValueError:
+                log.append(("retry-refused", seen))
+                await m.nack()
+                break
+            clock.advance(2 * SEC)
+
+    run_async(main, clock=clock)
+    S.cover("redis-chain")
+    want = [("force_retry-accepted" if (forced and i == 0) else "retry-accepted", i) for i in range(N)] + \
+           ([("force_retry-accepted", 0)] if forced and N == 0 else [])
+    # counters seen by successive deliveries grow by one; retry() is accepted while counter < N and refused afterwards
+    seen = [x[1] for x in log]
+    S.check("each-delivery-sees-the-counter-the-previous-answer-wrote", seen == list(range(len(seen))), info=str(log))
+    S.check("retry-refused-exactly-when-the-budget-is-spent", log[-1][0] == "retry-refused" and log[-1][1] >= N, info=f"N={N}: {log}")
+
+
 PRE = ["callback", "set_result", "set_exception", "raising_callback"]
 
 
@@ -204,6 +256,9 @@ def h16_eager(S, pre_len=3):
 
 
 HARNESSES = [
+    Harness(name="H16-redis-chain", scenario=h16_redis_chain,
+            bounds={"budget": "0..2", "history": "deliver, answer with retry() (the first answer possibly force_retry()), deliver again, ... until retry() is refused", "broker": "Redis on the fake server"},
+            functions=["message.py:Message.retry", "connections/redis/message_broker.py:RedisMessageBroker.requeue"], covers=["redis-chain"], stubs=["fake Redis server"]),
     Harness(name="H16-handle-message", scenario=h16_handle, workers=16,
             params={"quick": {"script_len": 3}, "thorough": {"script_len": 4}},
             bounds={"script": "3 (quick) / 4 (thorough) calls from {ack, nack, reject, reschedule, retry, force_retry}", "category": "NORMAL / DELAYED / DEAD",
